@@ -930,6 +930,106 @@ func (c *Ctx) uniqRules() {
 	if n < 1 {
 		c.S.Undecided("C03", "GUARD-UNIQ", "anchor", "-", "no function (spec.Definitions, string) → (string, bool) found")
 	}
+	// post-condition: the name returned is not a member — every return of the name is under the negated membership
+	// test of that very name, under "no definition at all", or right after a loop that runs while the name is a
+	// member (its condition is the membership test of the name, or a flag recomputed from it after the name changes)
+	for _, fi := range c.P.SortedFuncs() {
+		if !c.isUniqifier(fi.Obj) {
+			continue
+		}
+		info := c.info(fi)
+		defsParam := fi.Obj.Type().(*types.Signature).Params().At(0)
+		isMemberTest := func(e ast.Expr, name types.Object) bool {
+			call, ok := core.Unparen(e).(*ast.CallExpr)
+			if !ok || len(call.Args) != 2 {
+				return false
+			}
+			g := c.P.StaticCallee(fi, call)
+			if g == nil || !core.IsBool(g.Type().(*types.Signature).Results().At(0).Type()) {
+				return false
+			}
+			return core.ObjOf(info, call.Args[0]) == types.Object(defsParam) && core.ObjOf(info, call.Args[1]) == name
+		}
+		k := 0
+		ast.Inspect(fi.Decl.Body, func(nd ast.Node) bool {
+			blk, ok := nd.(*ast.BlockStmt)
+			if !ok {
+				return true
+			}
+			for i, st := range blk.List {
+				ret, isRet := st.(*ast.ReturnStmt)
+				if !isRet || len(ret.Results) != 2 {
+					continue
+				}
+				name := core.ObjOf(info, ret.Results[0])
+				if name == nil {
+					continue
+				}
+				k++
+				okRet := false
+				for _, cd := range c.conds(fi, ret) {
+					if cd.Kind == core.CondBool && cd.Neg && isMemberTest(cd.Expr, name) {
+						okRet = true
+					}
+					if x, empty, isE := core.EmptyTest(info, cd); isE && empty && core.ObjOf(info, x) == types.Object(defsParam) {
+						okRet = true
+					}
+				}
+				// the statement before the return: the search loop
+				for j := i - 1; j >= 0 && !okRet; j-- {
+					fs, isFor := blk.List[j].(*ast.ForStmt)
+					if !isFor {
+						if _, isAs := blk.List[j].(*ast.AssignStmt); isAs {
+							break // the name may have been changed after the loop
+						}
+						continue
+					}
+					if fs.Cond == nil {
+						break
+					}
+					if isMemberTest(fs.Cond, name) {
+						okRet = true
+						break
+					}
+					// for flag { …; name = …; flag = member(defs, name) }
+					flag := core.ObjOf(info, fs.Cond)
+					if flag == nil {
+						break
+					}
+					var lastName, lastFlag token.Pos
+					flagOK := false
+					for _, bs := range fs.Body.List {
+						as, isAs := bs.(*ast.AssignStmt)
+						if !isAs {
+							continue
+						}
+						for li, l := range as.Lhs {
+							switch core.ObjOf(info, l) {
+							case name:
+								lastName = as.Pos()
+							case flag:
+								lastFlag = as.Pos()
+								flagOK = li < len(as.Rhs) && isMemberTest(as.Rhs[li], name)
+							}
+						}
+					}
+					// the flag's value before the loop is the membership of the initial name
+					initOK := false
+					for _, d := range c.P.Locals(fi).Defs[flag] {
+						if d.Pos < fs.Pos() && d.Expr != nil && isMemberTest(d.Expr, name) {
+							initOK = true
+						}
+					}
+					okRet = flagOK && initOK && lastFlag > lastName
+					break
+				}
+				c.S.Decide(okRet, "C03", "GUARD-UNIQ", fmt.Sprintf("%s/return#%d", fi.QName(), k), c.P.Pos(ret.Pos()),
+					"the returned name has just been found absent from the definitions (negated membership test, or exit of the search loop)",
+					"the name "+name.Name()+" is returned although nothing establishes that it is absent from the definitions (the search for a free name is not a loop over the membership test of the current candidate): with enough homonyms a name already taken is returned and the definition saved under it overwrites another")
+			}
+			return true
+		})
+	}
 }
 
 // expandModeRule (C05, PIPE-EXPANDMODE): the expansion phase hands spec.ExpandSpec the option SkipSchemas; with Expand
